@@ -73,7 +73,7 @@ def gen_table(rng, kind, universe, weights, nrows, key_name, join_name, missing_
     elif key_kind == 'int_shuffled':
         keys = rng.sample(range(100, 100 + 3 * nrows + 3), nrows)
     else:
-        keys = ['k%d' % i for i in rng.sample(range(50), nrows)]
+        keys = ['k%d' % i for i in rng.sample(range(max(50, 2 * nrows)), nrows)]
     cols = {key_name: keys, join_name: pd.Series(strings, dtype=object)}
     order = [key_name, join_name]
     if extra_cols:
@@ -81,8 +81,15 @@ def gen_table(rng, kind, universe, weights, nrows, key_name, join_name, missing_
         pool = [c for c in ['x1', 'x2', 'x3', 'id', 'i', 'd', 'str', 'A', 'attr']
                 if c not in (key_name, join_name)]
         for cn in rng.sample(pool, rng.randint(0, 3)):
-            kind_c = rng.choice(['i', 'f', 's'])
-            if kind_c == 'i':
+            kind_c = rng.choice(['i', 'f', 's', 's', 'i', 'f', 'o'])
+            if kind_c == 'o':
+                # arbitrary Python objects in an object column (Decimal as read from a database NUMERIC
+                # column, tuples, large ints): a projected cell must be THE source cell, not a coerced copy
+                import decimal
+                cols[cn] = pd.Series([rng.choice([decimal.Decimal('0.10'), decimal.Decimal('2.675'),
+                                                  decimal.Decimal('250.00'), 2 ** 70, ('a', 1), None])
+                                      for _ in range(nrows)], dtype=object)
+            elif kind_c == 'i':
                 cols[cn] = [rng.randint(-5, 5) for _ in range(nrows)]
             elif kind_c == 'f':
                 cols[cn] = [rng.choice([0.5, 1.25, -3.0, float('nan')]) for _ in range(nrows)]
